@@ -245,6 +245,10 @@ def build():
     enum("HUv2", [var("A", [F("n", i32), F("m", ("seq", "vec", 0, u8))], [("add", "n", "z5"), ("add", "m", "b0102")]),
                   var("T", [F("field0", u64)], [("add", "field0", "n7")], shape="tuple"),
                   var("S", [F("q", ("opt", s))], [("add", "q", "(0)")]), var("K", [F("k", u8)])])
+    # raw identifiers as field names: the wire name is the identifier as written (`r#type`), and evolution steps
+    # name it that way
+    rec("RawId", [F("r#type", u8), F("r#match", ("opt", s)), F("plain", i32)], [("opt", "r#match")])
+    rec("RawId2", [F("r#type", ("opt", u8)), F("r#loop", i32)], [("add", "r#loop", "z7"), ("opt", "r#type")])
     # a unit constructor that carries evolution steps of its own (stored with a header although it has no fields),
     # followed by more data; a recursive record WITH evolution steps (every level opens chunk regions)
     eue = enum("EUnitEv", [var("A", shape="unit", steps=[("rem", "old")]), var("B", [F("field0", u8)], shape="tuple"),
